@@ -3,6 +3,7 @@ package main
 // C17.R2–R4: colour symmetry where the two colours are spelled out side by side.
 
 import (
+	"sync"
 	"fmt"
 	"go/ast"
 	"go/constant"
@@ -166,8 +167,50 @@ func isUntypedBig(tv types.TypeAndValue) bool { return false }
 
 // evalBBExpr evaluates a bitboard-typed expression built from constants, bit operators and
 // BitBoardFromSquares over constant squares.
+var bbVarInits sync.Map // types.Object (package-level var) -> ast.Expr initialiser
+
+// registerVarInits records the initialisers of package-level variables so that evalBBExpr can see through
+// `var centre = BitBoardFromSquares(D5, E5)` (C17.R1 proves nothing in the evaluation writes package variables).
+func registerVarInits(pk *packages.Package) {
+	for _, f := range pk.Syntax {
+		for _, d := range f.Decls {
+			gd, ok := d.(*ast.GenDecl)
+			if !ok || gd.Tok != token.VAR {
+				continue
+			}
+			for _, sp := range gd.Specs {
+				vs, ok := sp.(*ast.ValueSpec)
+				if !ok || len(vs.Values) != len(vs.Names) {
+					continue
+				}
+				for i, n := range vs.Names {
+					if obj := pk.TypesInfo.Defs[n]; obj != nil {
+						bbVarInits.Store(obj, vs.Values[i])
+					}
+				}
+			}
+		}
+	}
+}
+
 func evalBBExpr(info *types.Info, e ast.Expr) (uint64, bool) {
+	return evalBBExprD(info, e, 0)
+}
+
+func evalBBExprD(info *types.Info, e ast.Expr, depth int) (uint64, bool) {
 	e = ast.Unparen(e)
+	if depth > 6 {
+		return 0, false
+	}
+	if id, ok := e.(*ast.Ident); ok {
+		if obj := info.ObjectOf(id); obj != nil {
+			if v, isVar := obj.(*types.Var); isVar && v.Parent() == v.Pkg().Scope() {
+				if init, ok := bbVarInits.Load(obj); ok {
+					return evalBBExprD(info, init.(ast.Expr), depth+1)
+				}
+			}
+		}
+	}
 	if tv, ok := info.Types[e]; ok && tv.Value != nil {
 		if u, ok := constant.Uint64Val(constant.ToInt(tv.Value)); ok {
 			return u, true
@@ -176,8 +219,8 @@ func evalBBExpr(info *types.Info, e ast.Expr) (uint64, bool) {
 	}
 	switch x := e.(type) {
 	case *ast.BinaryExpr:
-		a, ok1 := evalBBExpr(info, x.X)
-		b, ok2 := evalBBExpr(info, x.Y)
+		a, ok1 := evalBBExprD(info, x.X, depth+1)
+		b, ok2 := evalBBExprD(info, x.Y, depth+1)
 		if !ok1 || !ok2 {
 			return 0, false
 		}
@@ -193,12 +236,12 @@ func evalBBExpr(info *types.Info, e ast.Expr) (uint64, bool) {
 		}
 	case *ast.UnaryExpr:
 		if x.Op == token.XOR {
-			a, ok := evalBBExpr(info, x.X)
+			a, ok := evalBBExprD(info, x.X, depth+1)
 			return ^a, ok
 		}
 	case *ast.CallExpr:
 		if isConversion(info, x) && len(x.Args) == 1 {
-			return evalBBExpr(info, x.Args[0])
+			return evalBBExprD(info, x.Args[0], depth+1)
 		}
 		var fobj types.Object
 		switch f := ast.Unparen(x.Fun).(type) {
@@ -317,6 +360,7 @@ func c17R2(c *Ctx, p *Prog) {
 		return
 	}
 	nPairs, nLits, nCases, nSelf := 0, 0, 0, 0
+	registerVarInits(pk)
 	for _, f := range pk.Syntax {
 		fname := p.Fset.Position(f.Pos()).Filename
 		if strings.HasSuffix(fname, "coeffs.go") {
